@@ -203,7 +203,7 @@ func vScenarioC13(rc *runCtx) {
 	sIn.OnWrite = func(l *verifsim.Link, d []byte) {
 		sGot = append(sGot, d...)
 		seen["act"] = bytes.Count(sGot, []byte("#ACT:")) + bytes.Count(sGot, []byte("#XYZ:")) + bytes.Count(sGot, []byte("#FAIL:"))
-		seen["cplain"] = bytes.Count(sGot, []byte("<C"))
+		seen["cplain"] = len(vCMarker.FindAll(sGot, -1)) // the whole marker: its last byte may travel in a segment of its own
 		seen["exit"] = bytes.Count(sGot, []byte("#EXIT:")) + bytes.Count(sGot, []byte("#fail:")) + bytes.Count(sGot, []byte{0x03})
 	}
 
@@ -436,6 +436,8 @@ func vClipB(b []byte, n int) []byte {
 	}
 	return b
 }
+
+var vCMarker = regexp.MustCompile(`<C\d+>`)
 
 var vTrigDigits = regexp.MustCompile(`::TRZSZ:TRANSFER:[SRD]:[0-9.:]+`)
 
